@@ -9,9 +9,10 @@ enum N {
     Cls(&'static str, bool), // members, negated
     Bol,
     Eol,
+    Ref(usize),
     Cat(Vec<N>),
     Alt(Vec<N>),
-    Grp(Box<N>, bool), // capturing?
+    Grp(Box<N>, bool, usize), // body, capturing?, group number (set by renumber)
     Rep(Box<N>, usize, Option<usize>, bool, &'static str), // body, min, max, greedy, spelling
 }
 
@@ -25,6 +26,7 @@ fn show(n: &N, out: &mut String) {
             out.push_str(m);
             out.push(']');
         }
+        N::Ref(g) => { out.push('\\'); out.push_str(&g.to_string()); }
         N::Bol => out.push('^'),
         N::Eol => out.push('$'),
         N::Cat(v) => for x in v { show(x, out) },
@@ -34,7 +36,7 @@ fn show(n: &N, out: &mut String) {
                 show(x, out);
             }
         }
-        N::Grp(b, cap) => {
+        N::Grp(b, cap, _) => {
             out.push_str(if *cap { "(" } else { "(?:" });
             show(b, out);
             out.push(')');
@@ -53,6 +55,7 @@ fn ends(n: &N, s: &[char], i: usize, fl: &str) -> BTreeSet<usize> {
         N::Ch(c) => if i < s.len() && s[i] == *c { r.insert(i + 1); },
         N::Dot => if i < s.len() && (fl.contains('s') || (s[i] != '\n' && s[i] != '\r')) { r.insert(i + 1); },
         N::Cls(m, neg) => if i < s.len() && (m.contains(s[i]) != *neg) { r.insert(i + 1); },
+        N::Ref(_) => { r.insert(i); } // not meaningful without captures; only used through bt
         N::Bol => if i == 0 || (fl.contains('m') && i < s.len() && s[i - 1] == '\n') { r.insert(i); },
         N::Eol => if i == s.len() || (fl.contains('m') && s[i] == '\n') { r.insert(i); },
         N::Cat(v) => {
@@ -65,7 +68,7 @@ fn ends(n: &N, s: &[char], i: usize, fl: &str) -> BTreeSet<usize> {
             r = cur;
         }
         N::Alt(v) => for x in v { r.extend(ends(x, s, i, fl)); },
-        N::Grp(b, _) => r = ends(b, s, i, fl),
+        N::Grp(b, _, _) => r = ends(b, s, i, fl),
         N::Rep(b, min, max, _, _) => {
             // k-fold concatenation for k in min..=max; positions only, so iterate sets
             let mut cur: BTreeSet<usize> = [i].into_iter().collect();
@@ -85,15 +88,48 @@ fn ends(n: &N, s: &[char], i: usize, fl: &str) -> BTreeSet<usize> {
 
 
 // ordered-choice backtracking reference: first success in priority order
+type Caps = std::cell::RefCell<Vec<Option<(usize, usize)>>>;
+thread_local! { static CAPS: Caps = std::cell::RefCell::new(vec![None; 16]); }
+fn renumber(n: &mut N, c: &mut usize) {
+    match n {
+        N::Grp(b, cap, id) => { if *cap { *c += 1; *id = *c; } renumber(b, c); }
+        N::Cat(v) | N::Alt(v) => for x in v { renumber(x, c) },
+        N::Rep(b, ..) => renumber(b, c),
+        _ => {}
+    }
+}
+fn groups_in(n: &N, out: &mut Vec<usize>) {
+    match n {
+        N::Grp(b, cap, id) => { if *cap { out.push(*id); } groups_in(b, out); }
+        N::Cat(v) | N::Alt(v) => for x in v { groups_in(x, out) },
+        N::Rep(b, ..) => groups_in(b, out),
+        _ => {}
+    }
+}
 fn bt(n: &N, s: &[char], i: usize, fl: &str, k: &mut dyn FnMut(usize) -> bool) -> bool {
     match n {
+        N::Ref(g) => {
+            match CAPS.with(|c| c.borrow()[*g]) {
+                None => k(i),
+                Some((a, b)) => { let l = b - a; if i + l <= s.len() && s[a..b] == s[i..i + l] { k(i + l) } else { false } }
+            }
+        }
         N::Ch(_) | N::Dot | N::Cls(..) | N::Bol | N::Eol => {
             for j in ends(n, s, i, fl) { if k(j) { return true; } }
             false
         }
         N::Cat(v) => bt_seq(v, s, i, fl, k),
         N::Alt(v) => { for x in v { if bt(x, s, i, fl, k) { return true; } } false }
-        N::Grp(b, _) => bt(b, s, i, fl, k),
+        N::Grp(b, cap, id) => {
+            if !*cap { return bt(b, s, i, fl, k); }
+            bt(b, s, i, fl, &mut |j| {
+                let old = CAPS.with(|c| c.borrow()[*id]);
+                CAPS.with(|c| c.borrow_mut()[*id] = Some((i, j)));
+                if k(j) { return true; }
+                CAPS.with(|c| c.borrow_mut()[*id] = old);
+                false
+            })
+        }
         N::Rep(b, min, max, greedy, _) => bt_rep(b, *min, *max, *greedy, 0, s, i, fl, k),
     }
 }
@@ -107,16 +143,24 @@ fn bt_rep(b: &N, min: usize, max: Option<usize>, greedy: bool, count: usize, s: 
     let can_more = max.map_or(true, |m| count < m);
     let mut more = |k: &mut dyn FnMut(usize) -> bool| -> bool {
         if !can_more { return false; }
-        bt(b, s, i, fl, &mut |j| {
+        // ECMAScript-like: the groups inside the body are reset when an iteration is entered (TRIAGE_PERLCAPS keeps them)
+        let mut ids = Vec::new();
+        if std::env::var("TRIAGE_PERLCAPS").is_err() { groups_in(b, &mut ids); }
+        let saved: Vec<_> = ids.iter().map(|g| CAPS.with(|c| c.borrow()[*g])).collect();
+        for g in &ids { CAPS.with(|c| c.borrow_mut()[*g] = None); }
+        let r = bt(b, s, i, fl, &mut |j| {
             if j == i && count >= min { return false; } // an empty iteration beyond min adds nothing
             bt_rep(b, min, max, greedy, count + 1, s, j, fl, k)
-        })
+        });
+        if !r { for (g, v) in ids.iter().zip(saved) { CAPS.with(|c| c.borrow_mut()[*g] = v); } }
+        r
     };
     if count < min { return more(k); }
     if greedy { more(k) || k(i) } else { k(i) || more(k) }
 }
 fn first_match(n: &N, s: &[char], from: usize, fl: &str) -> Option<(usize, usize)> {
     for i in from..=s.len() {
+        CAPS.with(|c| c.borrow_mut().iter_mut().for_each(|x| *x = None));
         let mut end = None;
         if bt(n, s, i, fl, &mut |j| { end = Some(j); true }) { return Some((i, end.unwrap())); }
     }
@@ -127,7 +171,11 @@ fn ref_replace(n: &N, s: &[char], fl: &str) -> Option<String> {
     let mut pos = 0;
     while let Some((i, j)) = first_match(n, s, pos, fl) {
         if j == i { return None; }
-        out.extend(&s[pos..i]); out.push('<'); out.extend(&s[i..j]); out.push('>');
+        out.extend(&s[pos..i]); out.push('<'); out.extend(&s[i..j]);
+        if std::env::var("TRIAGE_CAPS").is_ok() {
+            for g in 1..=3 { out.push('|'); if let Some((a, b)) = CAPS.with(|c| c.borrow()[g]) { out.extend(&s[a..b]); } }
+        }
+        out.push('>');
         pos = j;
     }
     out.extend(&s[pos..]);
@@ -135,17 +183,20 @@ fn ref_replace(n: &N, s: &[char], fl: &str) -> Option<String> {
 }
 
 fn atoms() -> Vec<N> {
-    vec![N::Ch('a'), N::Ch('b'), N::Dot, N::Cls("ab", false), N::Cls("a", true), N::Bol, N::Eol]
+    let mut v = vec![N::Ch('a'), N::Ch('b'), N::Dot, N::Cls("ab", false), N::Cls("a", true), N::Bol, N::Eol];
+    if std::env::var("TRIAGE_REFS").is_ok() { v = vec![N::Ch('a'), N::Ch('b'), N::Cls("ab", false), N::Ref(1)]; }
+    v
 }
 
 fn quants() -> Vec<(usize, Option<usize>, &'static str)> {
     vec![(0, None, "*"), (1, None, "+"), (0, Some(1), "?"), (2, Some(2), "{2}"), (1, Some(2), "{1,2}"), (0, Some(2), "{0,2}"), (2, None, "{2,}"), (0, Some(0), "{0}")]
 }
 
-fn is_atomic(n: &N) -> bool { matches!(n, N::Ch(_) | N::Dot | N::Cls(..) | N::Grp(..)) }
+fn is_atomic(n: &N) -> bool { matches!(n, N::Ch(_) | N::Dot | N::Cls(..) | N::Grp(..) | N::Ref(_)) }
 
 // all nodes of exactly `size`
 fn gen(size: usize, memo: &mut Vec<Vec<N>>) -> Vec<N> {
+    let capsize: usize = std::env::var("TRIAGE_CAPSIZE").ok().and_then(|s| s.parse().ok()).unwrap_or(4);
     if size < memo.len() { return memo[size].clone(); }
     let mut out = Vec::new();
     if size == 1 { out = atoms(); }
@@ -161,9 +212,10 @@ fn gen(size: usize, memo: &mut Vec<Vec<N>>) -> Vec<N> {
         }
         // group
         for b in gen(size - 1, memo) {
-            if is_atomic(&b) && !matches!(b, N::Grp(..)) { continue; }
-            out.push(N::Grp(Box::new(b.clone()), false));
-            if size <= 4 { out.push(N::Grp(Box::new(b), true)); }
+            let atomic = is_atomic(&b) && !matches!(b, N::Grp(..));
+            if atomic && std::env::var("TRIAGE_ATOMGROUPS").is_err() { continue; }
+            if !atomic { out.push(N::Grp(Box::new(b.clone()), false, 0)); }
+            if size <= capsize { out.push(N::Grp(Box::new(b), true, 0)); }
         }
         // binary cat / alt
         for l in 1..size - 1 {
@@ -209,8 +261,12 @@ fn diff_enum() {
     let mut total = 0usize; let mut bad = 0usize; let mut errs = 0usize; let mut shown = 0usize;
     for size in 1..=maxsize {
         let pats = gen(size, &mut memo);
-        for (pi, n) in pats.iter().enumerate() {
+        for (pi, n0) in pats.iter().enumerate() {
             if pi % stride != 0 { continue; }
+            let mut n1 = n0.clone();
+            renumber(&mut n1, &mut 0);
+            let n = &n1;
+            if std::env::var("TRIAGE_CAPS").is_ok() && !format!("{:?}", n).contains("true") { continue; }
             let mut p = String::new();
             show(n, &mut p);
             let re = match Regex::xpath(&p, fl) { Ok(r) => r, Err(_) => { errs += 1; continue } };
@@ -244,9 +300,18 @@ fn diff_enum() {
                     continue;
                 }
                 if spans {
-                    if let Ok(got) = re.replace_all(&st, "<$0>") {
+                    if let Ok(got) = re.replace_all(&st, if std::env::var("TRIAGE_CAPS").is_ok() { "<$0|$1|$2|$3>" } else { "<$0>" }) {
                         if let Some(want) = ref_replace(n, s, fl) {
-                            if want != got {
+                            // only unambiguous differences: the engine agrees with neither the reset-per-iteration
+                            // nor the keep-across-iterations reading of captures inside repetitions
+                            let other = {
+                                let perl = std::env::var("TRIAGE_PERLCAPS").is_ok();
+                                if perl { std::env::remove_var("TRIAGE_PERLCAPS"); } else { std::env::set_var("TRIAGE_PERLCAPS", "1"); }
+                                let o = ref_replace(n, s, fl);
+                                if perl { std::env::set_var("TRIAGE_PERLCAPS", "1"); } else { std::env::remove_var("TRIAGE_PERLCAPS"); }
+                                o
+                            };
+                            if want != got && other.as_deref() != Some(got.as_str()) {
                                 bad += 1;
                                 let skip = std::env::var("TRIAGE_SKIP").unwrap_or_default();
                                 let hidden = !skip.is_empty() && skip.split(' ').any(|x| p.contains(x));
@@ -258,7 +323,7 @@ fn diff_enum() {
                     }
                     continue;
                 }
-                let want = (0..=s.len()).any(|i| !ends(n, s, i, fl).is_empty());
+                let want = if std::env::var("TRIAGE_REFS").is_ok() { first_match(n, s, 0, fl).is_some() } else { (0..=s.len()).any(|i| !ends(n, s, i, fl).is_empty()) };
                 let got = re.is_match(&st);
                 if want != got {
                     bad += 1;
